@@ -57,7 +57,7 @@ class C15(Prop):
             "(objectClass\n=foo)", "(&(a=b)(c=d)", "(!" * 1000, "(!" * 3000 + "a=b" + ")" * 3000, "(\udcff=a)", "(a=\ud800)",
             "(cn=éé))", "(cn=éé)(", "(0=x)", "(attr:rule;option1:=value)", "", "   ", "(", ")", "()", "(&)", "(a=b))", "((a=b))",
             "(a=\\)", "(a=\\4)", "(a=b\\4g)", "(a:dn:=", "(:=x)", "(a::=x)", "(a:dn:dn:dn:=x)", "(a=**)", "(=x)", "a=b", "(a=b)\x1c",
-            "(a;=b)", "(a;x-=b)", "(1.=b)", "(1..2=b)", "(01.2=b)", "(a b=c)", "(a=b\n)",
+            "(:dn:=x)", ":dn:=x", "(&(:dn:=x))", "(|(a=b)(!(:dn:=x)))", "(:dn:=)", "(:dn:1.2:=x)", "(a;=b)", "(a;x-=b)", "(1.=b)", "(1..2=b)", "(01.2=b)", "(a b=c)", "(a=b\n)",
         ]
         return [{"kind": "corpus", "text": t} for t in texts]
 
